@@ -46,6 +46,9 @@ func (u *Unit) call(f *Frame, st *State, cc *ssa.CallCommon, res ssa.Value, pos 
 		if v.Fn != nil {
 			callee = v.Fn
 			binds = v.Binds
+		} else if fk := fieldFuncKey(cc.Value); fk != "" && u.ctx.externs[fk] != nil {
+			// call of a func-typed struct field with a declared contract
+			return u.contractCall(f, st, u.ctx.externs[fk], nil, args, resTy, pos, fk)
 		} else {
 			u.extDefault("dynamic call " + cc.Value.Name())
 			return u.freshResults(st, resTy)
@@ -631,6 +634,10 @@ func (u *Unit) havocAssigns(f *Frame, st *State, env *SpecEnv, con *Contract, po
 				n := u.em.elemHeapName(l.loc.RootTy)
 				h := u.heapGet(st, n, l.loc.RootTy)
 				arr := u.em.fresh("havoc", fmt.Sprintf("(Array Int %s)", u.em.sortOf(l.loc.RootTy)))
+				if l.off != "" {
+					// only the window [off, off+cap) of the backing array may change
+					u.assume(st, fmt.Sprintf("(forall ((x Int)) (! (=> (or (< x %s) (>= x (+ %s %s))) (= (select %s x) (select (select %s %s) x))) :pattern ((select %s x))))", l.off, l.off, l.ln, arr, h, l.loc.Ref, arr))
+				}
 				u.heapSet(st, n, l.loc.RootTy, fmt.Sprintf("(store %s %s %s)", h, l.loc.Ref, arr))
 			default:
 				nv := u.freshVal("havoc", l.loc.ty(), st)
@@ -682,4 +689,25 @@ func (u *Unit) sortSearch(f *Frame, st *State, args []Val, pos token.Pos) []Val 
 	fk := u.closureTerm(f, st, clo, []Val{{T: k, Ty: intT}})
 	u.assume(st, implies(fmt.Sprintf("(< %s %s)", k, n.T), fk))
 	return []Val{{T: k, Ty: intT}}
+}
+
+// fieldFuncKey: "field:T.f" when v is the value of func-typed field f of struct type T.
+func fieldFuncKey(v ssa.Value) string {
+	un, ok := v.(*ssa.UnOp)
+	if !ok || un.Op != token.MUL {
+		return ""
+	}
+	fa, ok := un.X.(*ssa.FieldAddr)
+	if !ok {
+		return ""
+	}
+	pt, ok := fa.X.Type().Underlying().(*types.Pointer)
+	if !ok {
+		return ""
+	}
+	st, ok := pt.Elem().Underlying().(*types.Struct)
+	if !ok {
+		return ""
+	}
+	return "field:" + typeShort(pt.Elem()) + "." + st.Field(fa.Field).Name()
 }
